@@ -277,8 +277,11 @@ func mergeOp(c *core.Ctx, blocks []*Block) {
 	var words []string
 	for _, b := range blocks {
 		d, err := buildBlockBytes(7, b)
-		if err != nil || len(d) == 0 {
+		if err != nil {
 			c.Fail("harness-build-block", fmt.Sprintf("%v %s", err, b.String()))
+			return
+		}
+		if !writeReadOp(c, b, d) {
 			return
 		}
 		datas = append(datas, d)
@@ -311,6 +314,59 @@ func mergeOp(c *core.Ctx, blocks []*Block) {
 		checkMerged(c, blocks, merged)
 		c.NonTrivial()
 	}
+}
+
+// writeReadOp mirrors the real block writer + reader on one logical block (`wr` op: the model's
+// block writer and reader) and checks flush-then-read on the implementation: the reader must find
+// exactly the cells, series ids and field metas handed to the flusher.
+func writeReadOp(c *core.Ctx, b *Block, d []byte) bool {
+	ok := true
+	c.Guard("wr "+b.String(), func() string {
+		if len(d) == 0 {
+			c.Fail("flush-output-empty", "the flusher wrote a 0-byte block for "+b.String())
+			ok = false
+			return "err empty"
+		}
+		rb, err := decodeBlock(d)
+		if err != nil {
+			c.Fail("flush-read-mismatch", "decode: "+err.Error())
+			ok = false
+			return "err decode"
+		}
+		want, got := b.Canonical(), rb.Canonical()
+		if want.String() != got.String() {
+			// name the first differing cell
+			desc := "written " + want.String() + " read " + got.String()
+			gs := map[uint32]SeriesEntry{}
+			for _, s := range got.Series {
+				gs[s.ID] = s
+			}
+		find:
+			for _, s := range want.Series {
+				g, present := gs[s.ID]
+				if !present {
+					desc = fmt.Sprintf("series %d written, not read back; %s", s.ID, desc)
+					break
+				}
+				for _, f := range want.Fields {
+					for t := want.Start; t <= want.End; t++ {
+						wv, w1 := s.Fields[f.ID][t]
+						gv, g1 := g.Fields[f.ID][t]
+						if w1 != g1 || wv != gv {
+							desc = fmt.Sprintf("cell {series %d field %d slot %d}: written %v(%v) read %v(%v); %s", s.ID, f.ID, t, wv, w1, gv, g1, desc)
+							break find
+						}
+					}
+				}
+			}
+			if len(desc) > 600 {
+				desc = desc[:600]
+			}
+			c.Fail("flush-read-mismatch", desc)
+		}
+		return "ok " + got.String()
+	})
+	return ok
 }
 
 // checkMerged is C03's statement on one real merge: per cell exact aggregate (sum/min/max/
